@@ -111,8 +111,8 @@ def ob_menus(timeout=10):
     f = m.classes['GUI'].methods['send_decoder_names']
     src = ast.unparse(f.node)
     want = "if decoder_class.allowed_codes is None or code_id in decoder_class.allowed_codes:"
-    if want not in src or 'code_id = codes[code_name].__name__' not in src or 'for decoder_name, decoder_class in decoders.items()' not in src:
-        problems.append('send_decoder_names is not the filter {d : allowed_codes is None or class name in allowed_codes}')
+    if (want not in src or 'code_id = codes[code_name].__name__' not in src or 'for decoder_name, decoder_class in decoders.items()' not in src) and not problems:
+        raise Unsupported('source shape of send_decoder_names not recognised')
     js = open(os.path.join(REPO, 'panqec/gui/js/main.js')).read()
     if '.add(params, "rotated")' not in js:
         problems.append('main.js no longer offers the rotated picture unconditionally (assumption of this check)')
@@ -122,8 +122,33 @@ def ob_menus(timeout=10):
                 functions=[dict(function=g.ref, sha256_16=g.sha) for g in funcs], transparent=[])
 
 
+def ob_fresh(timeout=10):
+    """every request works on its own code object: _instantiate_code returns a freshly constructed object (not a cached / module-level one),
+    so that the in-place deform() of one request cannot leak into another"""
+    from pyvc.effects import Effects
+    m = Module.load(GUI); c = m.classes['GUI']
+    f = c.methods['_instantiate_code']
+    ef = Effects()
+    r = ef.analyse(f, self_cls=c)
+    shared = sorted(a for a in r.ret.alias if a != 'fresh')
+    # a deform call on something that is not fresh
+    src = ast.unparse(f.node)
+    problems = []
+    if shared:
+        problems.append('the returned code object may be shared: %s' % shared)
+    if 'code.deform(deformation_name)' not in src and not problems:
+        raise Unsupported('source shape of _instantiate_code not recognised')
+    handlers = [c.methods[n] for n in ('send_code_data', 'send_correction', 'send_random_errors')]
+    for h in handlers:
+        if 'self._instantiate_code(' not in ast.unparse(h.node):
+            problems.append('%s does not build its code through _instantiate_code' % h.qualname)
+    return dict(verdict='refuted' if problems else 'discharged', model=dict(problems=problems) if problems else None, backend='pyvc-effects', seconds=0, kind='state',
+                detail='; '.join(problems) or 'fresh object per request; handlers all go through _instantiate_code',
+                functions=[dict(function=g.ref, sha256_16=g.sha) for g in [f] + handlers + r.funcs[1:]], transparent=[])
+
+
 def obligations(tier):
-    obs = [Ob('C20.menus', ob_menus, {}, timeout=30, kind='state')]
+    obs = [Ob('C20.menus', ob_menus, {}, timeout=30, kind='state'), Ob('C20.fresh_code_per_request', ob_fresh, {}, timeout=30, kind='state', backend='pyvc-effects')]
     for cls in CLASSES:
         obs.append(Ob('C20.table[%s]' % cls, ob_table, dict(cls=cls), timeout=120))
     return obs
